@@ -67,24 +67,13 @@ Theorem C20_mt_order_free :
 Proof. exact mt_order_free. Qed.
 Print Assumptions C20_mt_order_free.
 
-(* the statement at full strength: whenever the operand lookups of the flat phase succeed, the two forms agree —
-   on the result AND on the exception class — for every option point, every out=, every completion order *)
-Definition C20_mt_equals_st_full_statement : Prop :=
-  forall A (o : opts) fn con propagate so sm sf (others : list (tree A)) out names pi tasks lfs,
-    flat_items A o (o_default o) con [] sm sf others sf 0%nat = Ok (tasks, lfs) ->
-    (forall id, (id < List.length tasks)%nat -> In id pi) ->
-    mt_front A o fn con propagate (Node so sm sf) others out names pi
-    = st_front A o fn con propagate (Node so sm sf) others out names.
-
-(* proved for every point of the lattice — out=, default=, filter_empty None / True / False, names=, batch size and device
-   overrides, checked, call_on_nested, named, every is_leaf — when self holds no non-tensor entry or the call is neither
-   in place nor given out=.  What is missing: an untouched non-tensor entry is re-created by the two forms from different
-   sources (a copy of self's entry / the tensorclass wrapper around out[key] or around the entry itself), so its METADATA
-   can differ when nothing is validated on the way in (checked) — see the witness below; its data agree since C20-f. *)
-Theorem C20_mt_equals_st_partial :
+(* mt_equals_st, at full strength (since the repair of C20-g no side hypothesis about non-tensor entries): whenever the
+   operand lookups of the flat phase succeed and every task completes, the two forms agree — on the result AND on the
+   exception class — for every option point (out=, default=, filter_empty None / True / False, names=, batch size and
+   device overrides, checked, call_on_nested, named, every is_leaf, in place or not), every out=, every completion order;
+   when a lookup fails neither form returns *)
+Theorem C20_mt_equals_st :
   forall A (o : opts) fn con propagate so sm sf (others : list (tree A)) out names pi,
-    (o_inplace o = true -> nont_free A sf = true) ->
-    (out <> None -> nont_free A sf = true) ->
     (forall tasks lfs, flat_items A o (o_default o) con [] sm sf others sf 0%nat = Ok (tasks, lfs) ->
                        forall id, (id < List.length tasks)%nat -> In id pi) ->
     match flat_items A o (o_default o) con [] sm sf others sf 0%nat with
@@ -94,22 +83,7 @@ Theorem C20_mt_equals_st_partial :
                      /\ mt_front A o fn con propagate (Node so sm sf) others out names pi <> MOk r
     end.
 Proof. exact mt_equals_st. Qed.
-Print Assumptions C20_mt_equals_st_partial.
-
-(* the full statement is false of the model (and of /repo, finding C20-g): the metadata of a non-tensor entry re-created
-   under out= (here with checked, where nothing evens it out) *)
-Theorem C20_mt_equals_st_refuted :
-  exists (o : opts) fn self out pi m f m' f',
-    o_checked o = true
-    /\ st_front Z o fn false false self [] (Some out) None = MOk (Some (Node (Old 30%Z) m f))
-    /\ fget Z f "t" = Some (NonT New 5%Z m0)
-    /\ mt_front Z o fn false false self [] (Some out) None pi = MOk (Some (Node (Old 30%Z) m' f'))
-    /\ fget Z f' "t" = Some (NonT New 5%Z (mkMeta [3%nat] (Some CPU) None false)).
-Proof.
-  destruct mt_nontensor_out_witness as (m & f & m' & f' & H1 & H2 & H3 & H4).
-  exists (with_checked base_opts), (fn_of []), self_f, out_g, [0%nat], m, f, m', f'. repeat split; assumption.
-Qed.
-Print Assumptions C20_mt_equals_st_refuted.
+Print Assumptions C20_mt_equals_st.
 
 (* ------------------------------------------------------------------ non-vacuity *)
 (* a three-level self with a non-tensor entry, a nested empty node, an operand with permuted / extra / missing keys, default=,
@@ -148,6 +122,16 @@ Example C20_ex_mt_former_defects :
   /\ (let o := with_dev (with_checked base_opts) (Some META) in
       mt_front Z o (fn_of []) false false self_a [] (Some out_dev) None [0%nat] = st_front Z o (fn_of []) false false self_a [] (Some out_dev) None).
 Proof. exact mt_former_defects_agree. Qed.
+
+(* the former witness of C20-g (a non-tensor entry that out= already holds, checked): both forms give the new entry the
+   metadata of self's entry *)
+Example C20_ex_mt_former_C20g :
+  let o := with_checked base_opts in
+  exists m f,
+    st_front Z o (fn_of []) false false self_f [] (Some out_g) None = MOk (Some (Node (Old 30%Z) m f))
+    /\ fget Z f "t" = Some (NonT New 5%Z m0)
+    /\ mt_front Z o (fn_of []) false false self_f [] (Some out_g) None [0%nat] = MOk (Some (Node (Old 30%Z) m f)).
+Proof. exact mt_nontensor_out_agree. Qed.
 
 (* the former defects of the front-ends (C20-b, C20-c, C20-f; C20-a is the forwarding of out= by named_apply, which the
    harness exercises): the model of the repaired code on their witnesses *)
@@ -238,59 +222,26 @@ Proof. exact lazy_apply__spec. Qed.
 Print Assumptions C20_lazy_apply__spec.
 
 (* ------------------------------------------------------------------ lazy stacks in a thread pool *)
-(* the statement at full strength: without batch_size=, whenever the flat phase succeeds and every task completes, the
-   thread-pool form of a lazy stack agrees with the single-threaded one ([agree]: same result, same exception class —
-   except that failing to re-stack a mix of None and results is a RuntimeError there and the constructor's own
-   AttributeError / TypeError here) *)
-Definition C20_lazy_mt_equals_st_full_statement : Prop :=
+(* lazy_mt_equals_st, at full strength (since the repairs of C20-g and C20-h no side hypothesis): without batch_size=,
+   whenever the flat phase succeeds and every task completes, the thread-pool form of a lazy stack agrees with the
+   single-threaded one ([agree]: same result, same exception class — except that failing to re-stack a mix of None and
+   results is a RuntimeError there and the constructor's own AttributeError / TypeError here), for every out= (a lazy
+   stack, a lazily stacked tensorclass, anything else), names=, device=, in place or not, every completion order *)
+Theorem C20_lazy_mt_equals_st :
   forall A (o : opts) fn con propagate (self : lstack A) others out names pi oth tasks lfss,
     o_bs o = None ->
     unbind_all A (l_sd A self) others = Ok oth ->
     lz_flat A o con (l_members A self) oth 0%nat = Ok (tasks, lfss) ->
     (forall id, (id < List.length tasks)%nat -> In id pi) ->
-    agree (lz_front A o fn con propagate self others out names) (lz_mt_front A o fn false con propagate self others out names pi).
-
-(* ([lz_mt_front]'s first argument: whether the repair of C20-h is in the tree; false = /repo as it is.)
-   proved when out= is not a lazily stacked tensorclass (C20-h; no such hypothesis once it is repaired) and, as for regular tensordicts (C20-g), when no member
-   holds a non-tensor entry or the call is neither in place nor given out= *)
-Theorem C20_lazy_mt_equals_st_partial :
-  forall A (o : opts) fn fixh con propagate (self : lstack A) others out names pi oth tasks lfss,
-    o_bs o = None ->
-    (fixh = false -> forall ms, out <> Some (OutLazy A true ms)) ->
-    unbind_all A (l_sd A self) others = Ok oth ->
-    lz_flat A o con (l_members A self) oth 0%nat = Ok (tasks, lfss) ->
-    (forall id, (id < List.length tasks)%nat -> In id pi) ->
-    (o_inplace o = true -> forallb (nf_t A) (l_members A self) = true) ->
-    (out <> None -> forallb (nf_t A) (l_members A self) = true) ->
-    agree (lz_front A o fn con propagate self others out names) (lz_mt_front A o fn fixh con propagate self others out names pi).
+    agree (lz_front A o fn con propagate self others out names) (lz_mt_front A o fn con propagate self others out names pi).
 Proof. exact lazy_mt_equals_st. Qed.
-Print Assumptions C20_lazy_mt_equals_st_partial.
-
-(* the full statement is false of the model and of /repo (finding C20-h): out= a lazily stacked tensorclass is written by
-   the single-threaded form and refused (ValueError) by the thread-pool form *)
-Theorem C20_lazy_mt_equals_st_refuted :
-  exists (o : opts) fn (self : lstack Z) out pi oth tasks lfss r,
-    o_bs o = None
-    /\ unbind_all Z (l_sd Z self) [] = Ok oth
-    /\ lz_flat Z o false (l_members Z self) oth 0%nat = Ok (tasks, lfss)
-    /\ (forall id, (id < List.length tasks)%nat -> In id pi)
-    /\ lz_front Z o fn false false self [] (Some out) None = Ok r
-    /\ lz_mt_front Z o fn false false false self [] (Some out) None pi = MRaised EValue
-    /\ lz_mt_front Z o fn true false false self [] (Some out) None pi = MOk r.      (* with the repair: the same result *)
-Proof.
-  destruct lazy_mt_tc_out_witness as ((r & H1 & H3) & H2).
-  exists base_opts, (fn_of []), self_l, out_tc, [0; 1; 2; 3]%nat. do 3 eexists. exists r.
-  split; [reflexivity|]. split; [reflexivity|]. split; [vm_compute; reflexivity|].
-  split; [|split; [assumption|split; assumption]].
-  intros id Hid. cbn in Hid. do 4 (destruct id as [|id]; [cbn; tauto|]). exfalso. do 4 apply Nat.succ_lt_mono in Hid. inversion Hid.
-Qed.
-Print Assumptions C20_lazy_mt_equals_st_refuted.
+Print Assumptions C20_lazy_mt_equals_st.
 
 (* batch_size= is refused by the thread-pool form of a lazy stack *)
 Theorem C20_lazy_mt_refuses_batch_size :
-  forall A (o : opts) fn fixh con propagate (self : lstack A) others out names pi b,
+  forall A (o : opts) fn con propagate (self : lstack A) others out names pi b,
     l_members A self <> [] -> o_bs o = Some b ->
-    lz_mt_front A o fn fixh con propagate self others out names pi = MRaised ERuntime.
+    lz_mt_front A o fn con propagate self others out names pi = MRaised ERuntime.
 Proof. exact lazy_mt_refuses_batch_size. Qed.
 Print Assumptions C20_lazy_mt_refuses_batch_size.
 
@@ -333,10 +284,14 @@ Example C20_ex_lazy_mt :
     unbind_all Z 0%nat [op_x; op_y] = Ok oth
     /\ lz_flat Z base_opts false (l_members Z self_l) oth 0%nat = Ok (tasks, lfss)
     /\ List.length tasks = 4%nat
-    /\ forallb (nf_t Z) (l_members Z self_l) = true
-    /\ exists r, lz_mt_front Z base_opts (fn_of []) false false false self_l [op_x; op_y] (Some out_l) None [3; 1; 0; 2]%nat = MOk r
+    /\ exists r, lz_mt_front Z base_opts (fn_of []) false false self_l [op_x; op_y] (Some out_l) None [3; 1; 0; 2]%nat = MOk r
                  /\ lz_front Z base_opts (fn_of []) false false self_l [op_x; op_y] (Some out_l) None = Ok r.
 Proof. exact example_lazy_mt. Qed.
+(* the former witness of C20-h: out= a lazily stacked tensorclass *)
+Example C20_ex_lazy_mt_former_C20h :
+  exists r, lz_front Z base_opts (fn_of []) false false self_l [] (Some out_tc) None = Ok r
+            /\ lz_mt_front Z base_opts (fn_of []) false false self_l [] (Some out_tc) None [0; 1; 2; 3]%nat = MOk r.
+Proof. exact lazy_mt_tc_out_agree. Qed.
 Example C20_ex_lazy_apply_ :
   exists r0 r1,
     lz_apply_ Z base_opts (fn_of [113%Z]) false None self_l [op_x] = Ok (LRStack Z (Old 7%Z) 0%nat (Some "s") [r0; r1])
